@@ -109,11 +109,24 @@ def sig_dead(w):
     return any(tds[i]["deadline"] < lb[i] for i in lb)
 
 
+def sig_undecided_parent(w, order):
+    """F11-iv: a decided task has a co-decided parent and a parent that is not decided (e.g. COMPLETED)"""
+    dec = set(order)
+    for g in w["graphs"]:
+        for c in g["nodes"]:
+            ps = [p for p, c2 in g["edges"] if c2 == c]
+            if c in dec and any(p in dec for p in ps) and any(p not in dec for p in ps):
+                return True
+    return False
+
+
 def replay_known(ctx):
     specs = [("F11-ii", "per-task capacity row charges two tasks that never coexist together: ILP optimum below the feasible goodput "
                         "(ilp_scheduler.py:1270-1363)"),
              ("F11-iii", "running task charged its full runtime from now: a task that fits after it is left unplaced "
                          "(ilp_scheduler.py:172-194,1397-1403)"),
+             ("F11-iv", "a task with a COMPLETED parent and a co-decided parent can never be placed: len(parent_tasks) counts parents "
+                        "that have no variables (ilp_scheduler.py:1142-1157)"),
              ("F22", "one task with deadline < now + 1 makes the model infeasible: nothing is placed in that invocation "
                         "(ilp_scheduler.py:200-207,318-340,760-774)")]
     import json
@@ -175,7 +188,7 @@ def run(ctx):
     ctx.rules.append("S-opt: tiny instances (<= 3 offered tasks quick / 4 thorough, <= 2 workers, <= 2 strategies, deadlines <= now + 10, "
                      "sometimes a two-task chain offered as a whole or one running task), Gurobi (the planner's own MIPGap 0.1) vs `best_goodput` "
                      "(exhaustive search of feasible_clb plans in Coq); equality required unless the input matches the signature of "
-                     "F11-ii / F11-iii / F22, where only solver <= exhaustive is required")
+                     "F11-ii / F11-iii / F11-iv / F22, where only solver <= exhaustive is required")
     try:
         mism = ctx.model_stream("S-opt", HEADER, "instance * Z", "(fun p => I (best_goodput (fst p) (snd p)))", cases, shard=3)
         below = 0
@@ -183,7 +196,7 @@ def run(ctx):
             i = where[idx]
             w = tiny[i]
             sol = cases[idx][1]
-            known = sig_running(w) or sig_three_way(w) or sig_dead(w)
+            known = sig_running(w) or sig_three_way(w) or sig_dead(w) or sig_undecided_parent(w, tres[i].get("order", []))
             if sol < mv and known:
                 below += 1
                 continue
